@@ -34,6 +34,16 @@ type world struct {
 
 	mu          sync.Mutex
 	pendingOnce []onceCheck
+	timing      map[string]string
+}
+
+func (w *world) noteTiming(k, v string) {
+	w.mu.Lock()
+	if w.timing == nil {
+		w.timing = map[string]string{}
+	}
+	w.timing[k] = v
+	w.mu.Unlock()
 }
 
 func (w *world) addOnce(c onceCheck) {
@@ -111,6 +121,19 @@ func run(r *lib.Run) {
 
 	w := &world{r: r}
 	defs, budgets := rigTable(r.Quick)
+	if f := os.Getenv("VERIF_C12_RIGS"); f != "" {
+		// development aid: restrict the run to rigs whose name contains one of the given substrings
+		var keep []rigDef
+		for _, d := range defs {
+			for _, sub := range strings.Split(f, ",") {
+				if strings.Contains(d.name(), sub) {
+					keep = append(keep, d)
+					break
+				}
+			}
+		}
+		defs = keep
+	}
 
 	// Build every instance up front: each one starts 512 workers that never
 	// stop, so they are part of the baseline of the growth oracle.
@@ -171,12 +194,17 @@ func run(r *lib.Run) {
 			go func(rg *rig) {
 				defer wg.Done()
 				wk := plan[rg]
+				t0 := time.Now()
 				rg.runReadCases(wk.specs, half)
+				t1 := time.Now()
 				rg.runCancelCases(wk.stalls, wk.b.queued, half)
+				t2 := time.Now()
 				rg.runWriteCases(wk.b.writes, wk.b.wfaults, wk.b.fullq, half)
+				w.noteTiming(fmt.Sprintf("%s/h%d", rg.name, half), fmt.Sprintf("read %.1fs cancel %.1fs write %.1fs", t1.Sub(t0).Seconds(), t2.Sub(t1).Seconds(), time.Since(t2).Seconds()))
 			}(rg)
 		}
 		wg.Wait()
+		tq := time.Now()
 		phase := fmt.Sprintf("after-%dN", half+1)
 		for _, rg := range w.rigs {
 			wg.Add(1)
@@ -187,7 +215,9 @@ func run(r *lib.Run) {
 		}
 		wg.Wait()
 		w.checkOnce()
+		tm := time.Now()
 		obs[half] = w.measure(obs[0])
+		w.noteTiming(fmt.Sprintf("barrier/h%d", half), fmt.Sprintf("quiesce %.1fs measure %.1fs", tm.Sub(tq).Seconds(), time.Since(tm).Seconds()))
 		if r.Violations() > 60 {
 			break
 		}
@@ -202,6 +232,7 @@ func run(r *lib.Run) {
 		}
 	}
 	r.Extra("cases_run", total)
+	r.Extra("timing", w.timing)
 	r.Extra("rigs", len(w.rigs))
 }
 
